@@ -5,7 +5,7 @@ EXPLANATION = (
     "D1 key<->field table of Deserialize for ScanIndex: each struct field originates from map.get(<its own key>), with the spec kind (required via PkgName::new, optional scalar, whitespace-separated list, fallible item/list with the error propagated); "
     "D2 segmentation pairing in from_reader: a record is emitted exactly on (line starts with \"PKGNAME=\" and buffer non-empty) and at end of input with a non-empty buffer; the buffer is cleared between an in-loop emit and the next append; every kept line is appended with a newline; blank lines continue without effect; "
     "D3 whole-or-nothing: every Result in from_reader/str_to_index/deserialize is propagated, the only Ok carries the vector built by push in order; "
-    "D4 KEY=VALUE lines are split at the first '=' with both sides trimmed, lines without '=' are skipped, later insert wins")
+    "D4 KEY=VALUE lines are split at the first '=' with both sides trimmed, lines without '=' are skipped, later insert wins; optional-result / list-result fields may be written with combinators (map/transpose, map/collect) or with control flow (match on get(key), a push loop), judged per outcome of the lookup")
 NOT_DECIDED = ["BufRead::lines, HashMap, str::trim and split_whitespace semantics (std)"]
 CONFIG_SENSITIVE = True
 
